@@ -12,10 +12,12 @@ import (
 	"github.com/goreleaser/nfpm/v2/internal/zzverif/scen"
 )
 
-func Verif_C01_C_RpmModes()   { verifRpmPayload(scen.Options{SymModes: true, Second: -2}) }
-func Verif_C01_C_RpmOwners()  { verifRpmPayload(scen.Options{SymOwners: true, Second: 1}) }
-func Verif_C01_C_RpmTimes()   { verifRpmPayload(scen.Options{SymTimes: true, Second: 3}) }
-func Verif_C01_C_RpmContent() { verifRpmPayload(scen.Options{SymContent: true, SymDst: true, SymType: true, Second: -2}) }
+func Verif_C01_C_RpmModes()  { verifRpmPayload(scen.Options{SymModes: true, Second: -2}) }
+func Verif_C01_C_RpmOwners() { verifRpmPayload(scen.Options{SymOwners: true, Second: 1}) }
+func Verif_C01_C_RpmTimes()  { verifRpmPayload(scen.Options{SymTimes: true, Second: 3}) }
+func Verif_C01_C_RpmContent() {
+	verifRpmPayload(scen.Options{SymContent: true, SymDst: true, SymType: true, Second: -2})
+}
 
 func verifFlagsOf(typ string) uint32 {
 	switch typ {
